@@ -1142,7 +1142,7 @@ func (v *Decoder) walkNode(ectx evaluationContext, n *html.Node) error {
 				}
 			}
 
-		} else if attrDatatype != nil && len(datatypeIRI) > 0 && datatypeIRI != rdfiri.XMLLiteral_Datatype {
+		} else if attrDatatype != nil && len(datatypeIRI) > 0 && datatypeIRI != rdfiri.XMLLiteral_Datatype && datatypeIRI != rdfiri.HTML_Datatype {
 			if attrContent != nil {
 				currentPropertyValue = rdf.Literal{
 					Datatype:    datatypeIRI,
